@@ -52,13 +52,16 @@ func (n *LocalNode) stabilize() error {
 		newSucc, spErr := head.GetPredecessor()
 		newSuccList, nsErr := head.GetSuccessors()
 		if spErr == nil && nsErr == nil {
-			succList = chord.MakeSuccListByID(head, newSuccList, chord.ExtendedSuccessorEntries)
+			// keep our remaining entries behind the head's own list: the head may know fewer
+			// successors than we do (e.g. it has only just joined), and a list that shrinks to
+			// the head alone leaves us stranded for good if the head then departs
+			succList = chord.MakeSuccListByID(head, append(newSuccList, succList[1:]...), chord.ExtendedSuccessorEntries)
 			modified = true
 
 			if newSucc != nil && chord.Between(n.ID(), newSucc.ID(), head.ID(), false) {
 				newSuccList, nsErr = newSucc.GetSuccessors()
 				if nsErr == nil {
-					succList = chord.MakeSuccListByID(newSucc, newSuccList, chord.ExtendedSuccessorEntries)
+					succList = chord.MakeSuccListByID(newSucc, append(newSuccList, succList...), chord.ExtendedSuccessorEntries)
 					modified = true
 				}
 			}
@@ -66,6 +69,14 @@ func (n *LocalNode) stabilize() error {
 		}
 		n.logger.Debug("Skipping over successor", zap.Object("head", head.Identity()), zap.Uint64s("succ", v2d(succList)))
 		succList = succList[1:]
+	}
+
+	if len(succList) == 0 {
+		// every known successor is gone: fall back to ourselves, so that we keep working as
+		// the last node of the ring, or are pulled back in through our predecessor (which
+		// the next round adopts as successor) instead of being stranded with a dead list
+		succList = chord.MakeSuccListByID(n, nil, chord.ExtendedSuccessorEntries)
+		modified = true
 	}
 
 	if modified {
